@@ -81,6 +81,10 @@ type Update struct {
 	lisAddr      string
 	connAt       time.Duration
 	xdsDelivered map[string]*envoy_cluster.Cluster // clusters the (simulated) discovery service has delivered and not withdrawn
+	rejectedUpdates  int  // listener updates that must be refused (and change nothing)
+	rejectedAccepted bool // ... one of them was accepted
+	lIdle        map[string]string                 // listener -> connection_idle_timeout as last configured through an update ("" = none)
+	lFilters     map[string]string                 // listener -> network filter chain as last configured through an update ("verif_noop:t1,proxy")
 }
 
 // uEpoch: a configuration and the interval during which a request may legitimately observe it
@@ -308,6 +312,8 @@ func (w *Update) Setup() error {
 	featuregate.ExecuteInitFunc(configmanager.ConfigAutoWrite)
 	loaded := configmanager.Load(w.cfgPath)
 	RegisterCodecs()
+	RegisterScriptedFilter() // (registers the pass-through network filter used by the listener updates as well)
+	FLog = &filterLog{}
 	if err := startMosnCfg(loaded); err != nil {
 		return err
 	}
@@ -375,7 +381,7 @@ func (w *Update) nextOp() {
 	w.ops++
 	adapter := cluster.GetClusterMngAdapterInstance()
 	rm := router.GetRoutersMangerInstance()
-	kind := pickFrom(ch, "work", "op", []string{"router.full", "route.add", "route.removeall", "cluster.update", "cluster.updatehosts", "cluster.del", "hosts.update", "hosts.append", "hosts.del", "xds.endpoints", "dump", "dump", "listener.update", "listener.add", "listener.del", "xds.cluster.update", "xds.cluster.del", "xds.router", "invalid"})
+	kind := pickFrom(ch, "work", "op", []string{"router.full", "route.add", "route.removeall", "cluster.update", "cluster.updatehosts", "cluster.del", "hosts.update", "hosts.append", "hosts.del", "xds.endpoints", "dump", "dump", "listener.update", "listener.add", "listener.del", "xds.cluster.update", "xds.cluster.del", "xds.router", "listener.update.rejected", "invalid"})
 	var run func()
 	desc := kind
 	m := &w.M
@@ -518,20 +524,63 @@ func (w *Update) nextOp() {
 		mk := markerKey(len(w.mark), ch.Seed)
 		w.mark = append(w.mark, mk)
 		ln := &v2.Listener{}
-		lj := mustJSON(J{"name": name, "address": addr, "bind_port": true, "filter_chains": []J{{
+		// the chain: 0-2 pass-through network filters (their number changes from update to update) and the proxy
+		var nf []J
+		var sig []string
+		for i, k := 0, ch.Pick("work", "lnoops", 3); i < k; i++ {
+			tag := fmt.Sprintf("t%d", ch.Pick("work", "lnooptag", 4))
+			nf = append(nf, J{"type": "verif_noop", "config": J{"tag": tag}})
+			sig = append(sig, "verif_noop:"+tag)
+		}
+		nf = append(nf, J{"type": "proxy", "config": J{"downstream_protocol": "X", "upstream_protocol": "X", "router_config_name": rn, "extend_config": J{"sub_protocol": "bolt"}}})
+		sig = append(sig, "proxy")
+		idle := pickFrom(ch, "work", "lidle", []string{"", "30s", "45s", "90s"})
+		ljm := J{"name": name, "address": addr, "bind_port": true, "filter_chains": []J{{
 			"tls_context": J{"status": false, "server_name": "upd", "private_key": mk},
-			"filters":     []J{{"type": "proxy", "config": J{"downstream_protocol": "X", "upstream_protocol": "X", "router_config_name": rn, "extend_config": J{"sub_protocol": "bolt"}}}}}}})
+			"filters":     nf}}}
+		if idle != "" {
+			ljm["connection_idle_timeout"] = idle
+		}
+		lj := mustJSON(ljm)
+		if w.lIdle == nil {
+			w.lIdle = map[string]string{}
+		}
+		w.lIdle[name] = idle
+		if w.lFilters == nil {
+			w.lFilters = map[string]string{}
+		}
+		w.lFilters[name] = strings.Join(sig, ",")
 		if err := json.Unmarshal(lj, ln); err != nil {
 			panic(err)
 		}
 		desc += " " + name + " router=" + rn
 		run = func() { _ = server.GetListenerAdapterInstance().AddOrUpdateListener("", ln) }
 		m.Listeners[name] = rn
+	case "listener.update.rejected":
+		// an update of l0 that names another address: it is refused ("listen address and listen name
+		// doesn't match") and must change nothing — neither the stored configuration nor what the running
+		// listener does. It carries a stream filter, which the accepted updates of this world never do.
+		ln := &v2.Listener{}
+		lj := mustJSON(J{"name": "l0", "address": "127.0.0.1:2999", "bind_port": true,
+			"stream_filters": []J{{"type": "verif_scripted", "config": J{"name": "fx", "phase": 0, "send": true}}},
+			"filter_chains": []J{{"filters": []J{{"type": "proxy", "config": J{"downstream_protocol": "X", "upstream_protocol": "X", "router_config_name": "r1", "extend_config": J{"sub_protocol": "bolt"}}}}}}})
+		if err := json.Unmarshal(lj, ln); err != nil {
+			panic(err)
+		}
+		w.rejectedUpdates++
+		s.After(30*time.Millisecond, "send", func() { w.sendReq("svc0") }) // traffic after it: would meet the stream filter
+		run = func() {
+			if err := server.GetListenerAdapterInstance().AddOrUpdateListener("", ln); err == nil {
+				w.rejectedAccepted = true
+			}
+		}
 	case "listener.del":
 		name := pickFrom(ch, "work", "lname", []string{"l1", "l1", "nosuch"})
 		desc += " " + name
 		run = func() { _ = server.GetListenerAdapterInstance().DeleteListener("", name) }
 		delete(m.Listeners, name)
+		delete(w.lFilters, name)
+		delete(w.lIdle, name)
 	case "xds.cluster.update", "xds.cluster.del":
 		name := pickFrom(ch, "work", "cname", uClusters)
 		xc := &envoy_cluster.Cluster{Name: name, LbPolicy: envoy_cluster.Cluster_ROUND_ROBIN}
@@ -876,6 +925,29 @@ func (w *Update) checkDump(hist string) {
 				}
 			}
 		}
+		if wantF, ok := w.lFilters[l.Name]; ok && len(l.FilterChains) == 1 {
+			var gotF []string
+			for _, f := range l.FilterChains[0].Filters {
+				if f.Type == "verif_noop" {
+					tag, _ := f.Config["tag"].(string)
+					gotF = append(gotF, "verif_noop:"+tag)
+				} else {
+					gotF = append(gotF, f.Type)
+				}
+			}
+			if strings.Join(gotF, ",") != wantF {
+				s.Violate("C12", "listener_filters_differ_in_dump", "listener %s: the dumped configuration has the network filters [%s], the last update configured [%s] (a MOSN started from the dump would run another chain); %s", l.Name, strings.Join(gotF, ","), wantF, hist)
+			}
+		}
+		if wantI, ok := w.lIdle[l.Name]; ok {
+			gotI := ""
+			if l.ConnectionIdleTimeout != nil && l.ConnectionIdleTimeout.Duration > 0 {
+				gotI = l.ConnectionIdleTimeout.Duration.String()
+			}
+			if wd, _ := time.ParseDuration(wantI); wantI != "" && wd.String() != gotI || wantI == "" && gotI != "" {
+				s.Violate("C12", "listener_idle_timeout_differs_in_dump", "listener %s: the dumped configuration has connection_idle_timeout %q, the last update configured %q (the running listener uses the new value, a MOSN started from the dump would not); %s", l.Name, gotI, wantI, hist)
+			}
+		}
 		if got != want {
 			s.Violate("C12", "listener_router_differs_in_dump", "listener %s: dumped configuration routes through %q, the last update said %q; %s", l.Name, got, want, hist)
 		}
@@ -1004,6 +1076,14 @@ func (w *Update) final() {
 		}
 		if strings.Contains(string(raw), "REDACTED") {
 			s.Violate("C20", "persisted_file_redacted", "the persisted configuration file contains the redaction placeholder instead of a real key")
+		}
+	}
+	if w.rejectedUpdates > 0 {
+		w.Stats["rejected_listener_updates"] += w.rejectedUpdates
+		if w.rejectedAccepted {
+			s.Violate("C12", "mismatched_listener_update_accepted", "an update of listener l0 that names another listen address was accepted; history %v", w.opLog)
+		} else if calls := FLog.Calls(); len(calls) > 0 {
+			s.Violate("C12", "rejected_update_changed_live_filters", "a listener update that was refused (address does not match the name) still installed its stream filter: filter %q ran %d times on later requests although no accepted update configured any stream filter; history %v", calls[0].Filter, len(calls), w.opLog)
 		}
 	}
 	w.checkTraffic()
